@@ -112,6 +112,7 @@ def main(argv=None):
     ap.add_argument('--keep', action='store_true')
     ap.add_argument('--limit', type=int, default=0, help='debug: only first N cases')
     ap.add_argument('--no-evidence', action='store_true')
+    ap.add_argument('--only', default='', help='debug: only cases whose id contains this')
     args = ap.parse_args(argv)
     prop = args.property.upper()
     t0 = time.time()
@@ -149,6 +150,8 @@ def _run(mod, prop, args, run_dir, env, t0):
         specs = [rep['spec']]
     else:
         specs = mod.plan(args.tier, args.seed)
+        if args.only:
+            specs = [s for s in specs if args.only in s['id']]
         if args.limit:
             specs = specs[:args.limit]
     ids = set()
